@@ -272,6 +272,19 @@ class Program(object):
             raise AnalysisBroken("anchor function %s%s has vanished" % (name, " in " + unit if unit else ""))
         return f
 
+    def public_api(self, plugins=False):
+        """names of functions declared in the public headers (include/hwloc.h, include/hwloc/*.h)"""
+        out = {}
+        for u in self.units.values():
+            for name, ds in u.decls.items():
+                for d in ds:
+                    rf = u.relfile(d["file"])
+                    if rf == "include/hwloc.h" or (rf.startswith("include/hwloc/") and "/autogen/" not in rf):
+                        if not plugins and rf.endswith("plugins.h"):
+                            continue
+                        out.setdefault(name, rf)
+        return out
+
     def all_funcs(self, only_main=True):
         seen = set()
         for u in self.units.values():
@@ -498,6 +511,7 @@ class Flow(object):
     def __init__(self, func):
         self.f = func
         self.inb = {}
+        self.recording = False   # True only in the final pass over the converged states
 
     def join(self, a, b):
         raise NotImplementedError
@@ -552,6 +566,16 @@ class Flow(object):
                 else:
                     self.inb[s] = ns
                     work.add(s)
+        # final pass: converged in-states, obligations are recorded only here
+        self.recording = True
+        for b in order:
+            if b not in self.inb:
+                continue
+            st = self.inb[b]
+            blk = f.blocks[b]
+            for e in blk["e"]:
+                st = self.elem(st, f.nodes[e])
+            self.out_state(blk, st)
         return self
 
     def out_state(self, blk, st):
